@@ -845,3 +845,181 @@ func isLoopHeader(b *ssa.BasicBlock) bool {
 	}
 	return false
 }
+
+func init() {
+	register(&Rule{
+		ID: "C10-j", Template: "loop completeness (a rejection does not end the operation)",
+		Doc: "Other refs in the same operation are unaffected by a rejection: in every function of cmd/wrgl/fetch that writes refs inside a loop over the fetched refs, a return inside that loop carries an error that was returned by a call in the loop (a store or object read that failed) — never an error built on the spot for a refused ref (non-fast-forward, would clobber a tag). A refusal is displayed and the loop goes on; returning there leaves every ref that sorts after the refused one un-updated.",
+		Min: 1,
+		Run: func(p *Program, r *RuleResult) error {
+			c, err := newC10(p)
+			if err != nil {
+				return err
+			}
+			fns := p.FuncsInPkg("cmd/wrgl/fetch")
+			r.Analysed = len(fns)
+			for _, fn := range fns {
+				ei := errorResultIndex(fn.Signature)
+				if ei < 0 {
+					continue
+				}
+				loops := map[*ssa.BasicBlock]bool{}
+				for _, s := range c.sites(fn) {
+					if h := enclosingLoop(s.in.Block()); h != nil {
+						// outermost loop around the site
+						for {
+							up := (*ssa.BasicBlock)(nil)
+							for _, cand := range fn.Blocks {
+								if cand != h && isLoopHeader(cand) && loopBody(cand)[h] {
+									up = cand
+								}
+							}
+							if up == nil {
+								break
+							}
+							h = up
+						}
+						loops[h] = true
+					}
+				}
+				for h := range loops {
+					body := loopBody(h)
+					n := 0
+					for _, ret := range returnsOf(fn) {
+						// returns that belong to the loop: reachable from the body without leaving through the header
+						inLoopRet := false
+						for b := range body {
+							if b == h {
+								continue
+							}
+							if blockReachesWithout(b, ret.Block(), h) {
+								inLoopRet = true
+								break
+							}
+						}
+						if !inLoopRet || body[ret.Block()] == false && !reachedOnlyFromLoop(fn, ret.Block(), body, h) {
+							continue
+						}
+						v := retVal(ret, ei)
+						if v == nil || isNilConst(v) {
+							continue
+						}
+						key := fmt.Sprintf("%s|return-in-ref-loop#%d", funcName(fn), n)
+						n++
+						what := "a return inside the loop over fetched refs reports a failed call, not a refused ref"
+						operational := false
+						for x := range backwardCalls(v) {
+							var call *ssa.Call
+							switch y := x.(type) {
+							case *ssa.Extract:
+								call, _ = y.Tuple.(*ssa.Call)
+								if call != nil && !isErrorType(y.Type()) {
+									call = nil
+								}
+							case *ssa.Call:
+								if isErrorType(y.Type()) {
+									call = y
+								}
+							}
+							if call == nil {
+								continue
+							}
+							if !definitelyNonNilError(call) && !isConstructorCall(call) {
+								operational = true
+							}
+						}
+						if operational {
+							r.ok(key, p.Rel(ret.Pos()), what)
+						} else {
+							r.bad(key, p.Rel(ret.Pos()), what, "the returned error is constructed here, no failed call stands behind it: a refused ref ends the whole save loop and the refs after it are silently left alone")
+						}
+					}
+					if n == 0 {
+						r.ok(fmt.Sprintf("%s|ref-loop@%d", funcName(fn), h.Index), p.Rel(fn.Pos()), "a return inside the loop over fetched refs reports a failed call, not a refused ref")
+					}
+				}
+			}
+			return nil
+		},
+	})
+
+	register(&Rule{
+		ID: "C10-k", Template: "T3 who-may-write (option escalation stays local)",
+		Doc: "Force for one remote is not force for the next: no function of cmd/wrgl or cmd/wrgl/fetch assigns a field whose name says force or mirror through a pointer it received as a parameter (or captured). pushSingleRepo turns force on for a remote configured as a mirror; done on a local copy that ends with the call, done through an options struct shared by `wrgl push --all` it makes every later repository of the same run a forced (and mirrored: remote-only refs deleted) push.",
+		Min: 1,
+		Run: func(p *Program, r *RuleResult) error {
+			if _, err := p.Func("cmd/wrgl.pushSingleRepo"); err != nil {
+				return err
+			}
+			fns := p.FuncsInPkg("cmd/wrgl", "cmd/wrgl/fetch")
+			r.Analysed = len(fns)
+			n := 0
+			for _, fn := range fns {
+				for _, b := range fn.Blocks {
+					for _, in := range b.Instrs {
+						st, ok := in.(*ssa.Store)
+						if !ok {
+							continue
+						}
+						fa, ok := st.Addr.(*ssa.FieldAddr)
+						if !ok {
+							continue
+						}
+						f := structField(fa.X.Type(), fa.Field)
+						if f == nil || !(forceName.MatchString(f.Name()) || strings.Contains(strings.ToLower(f.Name()), "mirror")) {
+							continue
+						}
+						shared := false
+						for x := range backward(fa.X, nil) {
+							switch x.(type) {
+							case *ssa.Parameter, *ssa.FreeVar:
+								shared = true
+							}
+						}
+						if !shared {
+							continue
+						}
+						// constructors that fill a fresh struct are fine (the pointer is a local Alloc)
+						n++
+						r.bad(fmt.Sprintf("%s|%s=", funcName(fn), f.Name()), p.Rel(st.Pos()), "a force / mirror option is not escalated through a shared pointer", funcName(fn)+" assigns "+f.Name()+" through a pointer it was given: the escalation outlives this call and applies to the caller's next repository")
+					}
+				}
+			}
+			if n == 0 {
+				r.ok("cmd/wrgl|option-escalation-local", "", "a force / mirror option is not escalated through a shared pointer")
+			}
+			return nil
+		},
+	})
+}
+
+// isConstructorCall: a repo function whose every return is a non-nil error.
+func isConstructorCall(c *ssa.Call) bool {
+	return nonNilErrorDepth(c, 0)
+}
+
+// blockReachesWithout: is `to` reachable from `from` without passing through `avoid`?
+func blockReachesWithout(from, to, avoid *ssa.BasicBlock) bool {
+	seen := map[*ssa.BasicBlock]bool{avoid: true}
+	stack := []*ssa.BasicBlock{from}
+	for len(stack) > 0 {
+		x := stack[len(stack)-1]
+		stack = stack[:len(stack)-1]
+		if x == to {
+			return true
+		}
+		if seen[x] {
+			continue
+		}
+		seen[x] = true
+		stack = append(stack, x.Succs...)
+	}
+	return false
+}
+
+// reachedOnlyFromLoop: every predecessor chain of b that starts at the function
+// entry passes through the loop body (b is an exit arm of the loop, e.g. its
+// `return err`).
+func reachedOnlyFromLoop(fn *ssa.Function, b *ssa.BasicBlock, body map[*ssa.BasicBlock]bool, h *ssa.BasicBlock) bool {
+	return h.Dominates(b)
+}
